@@ -84,7 +84,7 @@ func startDriver(path string, limit time.Duration) (*driver, error) {
 	return &driver{p: p, path: path}, nil
 }
 
-var reRaceAt = regexp.MustCompile(`(?m)^\s+(\S+/pkg/rpc[^\s(]*)\(.*\)\n\s+(\S+:\d+)`)
+var reRaceAt = regexp.MustCompile(`(?m)^\s+\S+/pkg/rpc\.(\S+?)\(\)\n\s+(\S+:\d+)`)
 
 // raceReport returns a short identification of the first data race report in stderr ("" if none).
 func (d *driver) raceReport() (key, text string) {
@@ -99,7 +99,7 @@ func (d *driver) raceReport() (key, text string) {
 	}
 	key = "data-race"
 	if m := reRaceAt.FindStringSubmatch(text); m != nil {
-		key = "data-race/" + filepath.Base(m[1])
+		key = "data-race/" + m[1]
 	}
 	if len(text) > 3000 {
 		text = text[:3000]
